@@ -396,5 +396,217 @@ theorem sg_f4 (ns : List Nat) (ks : List (List Nat)) (x : List α) (h : SgSpec (
   simp only [sg_nth_freq]
 
 
+theorem sg_foldl_pair {β} (l : List β) (f g : β → α) (a b : α) :
+    l.foldl (fun (acc : α × α) p => (acc.1 + f p, acc.2 + g p)) (a, b) = (a + (l.map f).sum, b + (l.map g).sum) := by
+  induction l generalizing a b with
+  | nil => simp
+  | cons p l ih => simp [List.foldl_cons, ih, add_assoc]
+
+theorem sg_interior_norm (ns : List Nat) (ks : List (List Nat)) (x : List α) (h : SgSpec (ns.map (· + 1)) ks x)
+    (W : List α → α) :
+    ((interior (withIdx (normalize x))).map (fun p => p.2 * W (freqs (ns.map (· + 1)) p.1))).sum
+      = ((ks.filter (polymorphic ns)).map (fun k => W (sgFreq ns k))).sum / ((ks.length : Nat) : α) := by
+  have hlin := sg_interior_linear ns ks x h (fun k => W (sgFreq ns k))
+  have hs := sg_sum _ ks x h
+  rw [sumList_eq_sum] at hs
+  have := sg_interior_withIdx_sum (normalize x) (fun p => p.2 * W (freqs (ns.map (· + 1)) p.1))
+  rw [sumList_eq_sum] at this
+  rw [this, normalize_length, ← hlin, ← sg_sum_map_div, h.1]
+  apply congrArg
+  apply List.map_congr_left
+  intro i hi
+  by_cases hc : i = 0 ∨ i = size (ns.map (· + 1)) - 1
+  · simp [hc]
+  · rw [if_neg hc, if_neg hc, normalize_getD, sg_freqs ns i (List.mem_range.mp hi), hs, div_mul_eq_mul_div]
+
+theorem sg_fstParts (ns : List Nat) (ks : List (List Nat)) (x : List α) (h : SgSpec (ns.map (· + 1)) ks x)
+    (h2 : ns.length = 2) (hns : ∀ n ∈ ns, 0 < n) :
+    fstParts (normalized ⟨x, ns.map (· + 1)⟩)
+      = (((ks.filter (polymorphic ns)).map (hudsonNum ns)).sum / ((ks.length : Nat) : α),
+         ((ks.filter (polymorphic ns)).map (hudsonDen ns)).sum / ((ks.length : Nat) : α)) := by
+  match ns, h2 with
+  | [a, b], _ =>
+    obtain ⟨a, rfl⟩ : ∃ a', a = a' + 1 := ⟨a - 1, by have := hns a (by simp); omega⟩
+    obtain ⟨b, rfl⟩ : ∃ b', b = b' + 1 := ⟨b - 1, by have := hns b (by simp); omega⟩
+    let Wn : List α → α := fun f =>
+      (nth f 0 - nth f 1) * (nth f 0 - nth f 1)
+        - nth f 0 * (1 - nth f 0) / ((((List.map (· + 1) [a + 1, b + 1]).getD 0 0 : Nat) : α) - ((2 : Nat) : α))
+        - nth f 1 * (1 - nth f 1) / ((((List.map (· + 1) [a + 1, b + 1]).getD 1 0 : Nat) : α) - ((2 : Nat) : α))
+    let Wd : List α → α := fun f => nth f 0 * (1 - nth f 1) + nth f 1 * (1 - nth f 0)
+    have e1 := sg_interior_norm [a + 1, b + 1] ks x h Wn
+    have e2 := sg_interior_norm [a + 1, b + 1] ks x h Wd
+    unfold fstParts normalized
+    simp only []
+    rw [sg_foldl_pair, zero_add, zero_add]
+    refine Prod.ext (e1.trans ?_) (e2.trans ?_)
+    · congr 2
+      apply List.map_congr_left
+      intro k _
+      unfold hudsonNum
+      simp only [Wn, sg_nth_freq, List.map_cons, List.getD_cons_zero, List.getD_cons_succ, Nat.add_sub_cancel]
+      push_cast
+      ring
+    · congr 2
+      apply List.map_congr_left
+      intro k _
+      unfold hudsonDen
+      simp only [Wd, sg_nth_freq]
+
+theorem sg_fst [CharZero α] (ns : List Nat) (ks : List (List Nat)) (x : List α) (h : SgSpec (ns.map (· + 1)) ks x)
+    (h2 : ns.length = 2) (hns : ∀ n ∈ ns, 0 < n) (hks : ks ≠ []) :
+    statFst (normalized ⟨x, ns.map (· + 1)⟩) = gFst ns ks := by
+  unfold statFst gFst sumOver
+  rw [sg_fstParts ns ks x h h2 hns, sumList_eq_sum, sumList_eq_sum]
+  simp only []
+  have : ((ks.length : Nat) : α) ≠ 0 := by
+    rw [Nat.cast_ne_zero]
+    intro e
+    exact hks (List.length_eq_zero_iff.mp e)
+  rw [div_div_div_cancel_right₀ this]
+
+theorem sg_at33 (ks : List (List Nat)) (x : List α) (h : SgSpec [3, 3] ks x) (r c : Nat) (hr : r < 3) (hc : c < 3) :
+    at33 ⟨x, [3, 3]⟩ r c = pairCount ks r c := by
+  have := h.2.2 [r, c] ⟨hr, hc, trivial⟩
+  unfold at33 nth pairCount
+  simp only [flat, size] at this
+  rw [show 3 * r + c = r * (3 * 1) + (c * 1 + 0) by omega, this, List.count_eq_countP, List.countP_eq_length_filter]
+
+theorem sg_king (ks : List (List Nat)) (x : List α) (h : SgSpec [3, 3] ks x) : statKing ⟨x, [3, 3]⟩ = gKing ks := by
+  unfold statKing gKing
+  simp only [sg_at33 ks x h _ _ (by omega : (0:Nat) < 3) (by omega : (1:Nat) < 3),
+    sg_at33 ks x h 0 2 (by omega) (by omega), sg_at33 ks x h 1 0 (by omega) (by omega),
+    sg_at33 ks x h 1 1 (by omega) (by omega), sg_at33 ks x h 1 2 (by omega) (by omega),
+    sg_at33 ks x h 2 0 (by omega) (by omega), sg_at33 ks x h 2 1 (by omega) (by omega)]
+
+theorem sg_r0 (ks : List (List Nat)) (x : List α) (h : SgSpec [3, 3] ks x) : statR0 ⟨x, [3, 3]⟩ = gR0 ks := by
+  unfold statR0 gR0
+  simp only [sg_at33 ks x h 0 2 (by omega) (by omega), sg_at33 ks x h 1 1 (by omega) (by omega),
+    sg_at33 ks x h 2 0 (by omega) (by omega)]
+
+theorem sg_r1 (ks : List (List Nat)) (x : List α) (h : SgSpec [3, 3] ks x) : statR1 ⟨x, [3, 3]⟩ = gR1 ks := by
+  unfold statR1 gR1
+  simp only [sg_at33 ks x h 0 1 (by omega) (by omega),
+    sg_at33 ks x h 0 2 (by omega) (by omega), sg_at33 ks x h 1 0 (by omega) (by omega),
+    sg_at33 ks x h 1 1 (by omega) (by omega), sg_at33 ks x h 1 2 (by omega) (by omega),
+    sg_at33 ks x h 2 0 (by omega) (by omega), sg_at33 ks x h 2 1 (by omega) (by omega)]
+
 end
+
+/-! ### chromosome level -/
+
+theorem sg_altCount_le (c : List Bool) : altCount c ≤ c.length := List.length_filter_le _ _
+
+theorem sg_altCount_cons (a : Bool) (c : List Bool) : altCount (a :: c) = (if a then 1 else 0) + altCount c := by
+  unfold altCount
+  cases a <;> simp [List.filter_cons] <;> omega
+
+theorem sg_filter_ne (a : Bool) (d : List Bool) :
+    (d.filter (· != a)).length = if a then d.length - altCount d else altCount d := by
+  induction d with
+  | nil => cases a <;> simp [altCount]
+  | cons b d ih =>
+    have hle := sg_altCount_le d
+    rw [List.filter_cons, sg_altCount_cons]
+    cases a <;> cases b <;> simp at ih ⊢ <;> omega
+
+theorem sg_diffPairs (c : List Bool) : diffPairs c = altCount c * (c.length - altCount c) := by
+  induction c with
+  | nil => simp [diffPairs, altCount]
+  | cons a c ih =>
+    have hle := sg_altCount_le c
+    rw [diffPairs, ih, sg_filter_ne, sg_altCount_cons]
+    obtain ⟨D, hD⟩ : ∃ D, c.length = altCount c + D := ⟨c.length - altCount c, by omega⟩
+    cases a
+    · simp only [Bool.false_eq_true, if_false, List.length_cons, Nat.zero_add]
+      rw [hD, show altCount c + D + 1 - altCount c = D + 1 by omega, show altCount c + D - altCount c = D by omega,
+        Nat.mul_succ]
+      omega
+    · simp only [if_true, List.length_cons]
+      rw [hD, show altCount c + D + 1 - (1 + altCount c) = D by omega, show altCount c + D - altCount c = D by omega,
+        Nat.add_mul, Nat.one_mul]
+
+theorem sg_diffBetween (c d : List Bool) :
+    diffBetween c d = altCount c * (d.length - altCount d) + altCount d * (c.length - altCount c) := by
+  induction c with
+  | nil => simp [diffBetween, altCount]
+  | cons a c ih =>
+    have hle := sg_altCount_le c
+    unfold diffBetween at ih ⊢
+    rw [List.map_cons, List.sum_cons, ih, sg_filter_ne, sg_altCount_cons]
+    obtain ⟨D, hD⟩ : ∃ D, c.length = altCount c + D := ⟨c.length - altCount c, by omega⟩
+    cases a
+    · simp only [Bool.false_eq_true, if_false, List.length_cons, Nat.zero_add]
+      rw [hD, show altCount c + D + 1 - altCount c = D + 1 by omega, show altCount c + D - altCount c = D by omega,
+        Nat.mul_succ]
+      omega
+    · simp only [if_true, List.length_cons]
+      rw [hD, show altCount c + D + 1 - (1 + altCount c) = D by omega, show altCount c + D - altCount c = D by omega,
+        Nat.add_mul, Nat.one_mul]
+      omega
+
+/-! ### from `create` to its sites -/
+
+/-- the site of one record, as `sitesOf` selects it -/
+def sgSite (cfg : SiteCfg) (r : Rec) : Option (List Nat) :=
+  match r with
+  | .gts _ _ l => match siteSpec cfg l with
+    | some (.standard k) => some k
+    | _ => none
+  | .corrupt _ _ => none
+
+theorem sg_sitesOf (cfg : SiteCfg) (recs : List Rec) : sitesOf cfg recs = recs.filterMap (sgSite cfg) := rfl
+
+theorem sg_site_iff (cfg : SiteCfg) (hnp : cfg.projectTo = none) (r : Rec) (hok : recOk cfg r = true) (k : List Nat) :
+    sgSite cfg r = some k ↔ countsAt cfg k r = true := by
+  cases r with
+  | corrupt a b => simp [sgSite, countsAt, gtsOf]
+  | gts a b l =>
+    unfold recOk at hok
+    simp only [sgSite, countsAt, gtsOf] at hok ⊢
+    rw [siteSpec_noproj cfg hnp l] at hok ⊢
+    cases hp : hasPloidyError (selected cfg.map cfg.cols l)
+    · cases hcmp : complete (selected cfg.map cfg.cols l) <;> simp
+    · rw [hp] at hok; simp at hok
+
+theorem sg_count_filterMap {β γ} [BEq γ] [LawfulBEq γ] [DecidableEq γ] (g : β → Option γ) (k : γ) (l : List β) :
+    (l.filterMap g).count k = (l.filter (fun r => decide (g r = some k))).length := by
+  induction l with
+  | nil => simp
+  | cons r l ih =>
+    rw [List.filterMap_cons, List.filter_cons]
+    cases hg : g r with
+    | none => simp [ih]
+    | some k' =>
+      simp only [List.count_cons, ih]
+      by_cases e : k' = k
+      · simp [e]
+      · simp [e]
+
+theorem sg_sitesOf_count (cfg : SiteCfg) (hnp : cfg.projectTo = none) (recs : List Rec)
+    (hok : ∀ r ∈ recs, recOk cfg r = true) (k : List Nat) :
+    (sitesOf cfg recs).count k = (recs.filter (countsAt cfg k)).length := by
+  rw [sg_sitesOf, sg_count_filterMap]
+  congr 1
+  apply List.filter_congr
+  intro r hr
+  have := sg_site_iff cfg hnp r (hok r hr) k
+  by_cases h : countsAt cfg k r = true
+  · simp [h, this.mpr h]
+  · simp [h, mt this.mp h]
+
+theorem sg_sitesOf_inB (cfg : SiteCfg) (hnd : cfg.cols.Nodup) (hnp : cfg.projectTo = none) (recs : List Rec)
+    (hwf : ∀ r ∈ recs, RecWf cfg r) (hok : ∀ r ∈ recs, recOk cfg r = true) :
+    ∀ k ∈ sitesOf cfg recs, InB cfg.outShape k := by
+  intro k hk
+  rw [sg_sitesOf, List.mem_filterMap] at hk
+  obtain ⟨r, hr, hs⟩ := hk
+  have hc := (sg_site_iff cfg hnp r (hok r hr) k).mp hs
+  have hw := hwf r hr
+  cases r with
+  | corrupt a b => simp [countsAt, gtsOf] at hc
+  | gts a b l =>
+    simp only [countsAt, gtsOf, decide_eq_true_eq] at hc
+    rw [← hc.2]
+    exact alt_in_bounds cfg hnd hnp l hw.1 hw.2
+
 end Sfs
